@@ -727,7 +727,7 @@ func runC12(c *ctx) {
 	base := c.rng.Fork()
 	rxDiff(c, []string{"Channel.promptPattern"}, c.n(150, 2000))
 	c12rxDiff(c, base.Fork(), c.n(120, 2500))
-	n := c.n(2500, 60000)
+	n := c.n(2500, 40000)
 	cases := make([]c12case, n)
 	for i := range cases {
 		cases[i] = genC12(base.U64(), c.thorough())
